@@ -989,6 +989,10 @@ func urlStream(pool [][]byte) {
 			for j := range via {
 				via[j] = &http.Request{URL: &url.URL{Scheme: "http", Host: "prev.example"}}
 			}
+			if nvia > 0 && r.Rand.Intn(2) == 0 {
+				// the redirect answers a request to the very same origin
+				via[nvia-1] = &http.Request{URL: &url.URL{Scheme: u.Scheme, Host: u.Host, Path: "/previous"}}
+			}
 			req := &http.Request{URL: u}
 			rok := revClient.CheckRedirect(req, via) == nil
 			r.Case("revredirect", append([]string{vh.Int(int64(nvia))}, f...), vh.Bool(rok))
@@ -1938,6 +1942,226 @@ func revocationRebindStream(pool [][]byte) {
 	}
 }
 
+// ---------------------------------------------------------------- redirect chains whose hops differ in ONE component
+//
+// Hop k+1 differs from hop k only in userinfo / path / query / fragment / port / scheme / host case
+// (or not at all), so that most redirects stay on the origin of the request they answer. The real
+// CheckRedirect of each client decides, wrapped only to log (len(via), target, verdict) for the
+// per-pair correspondence; the in-memory responder records every request with its headers.
+
+type urlParts struct{ scheme, user, host, port, path, query, frag string }
+
+func (u urlParts) String() string {
+	s := u.scheme + "://" + u.user + u.host + u.port + u.path
+	if u.query != "" {
+		s += "?" + u.query
+	}
+	if u.frag != "" {
+		s += "#" + u.frag
+	}
+	return s
+}
+
+type anyResolver struct{ ips []net.IPAddr }
+
+func (a anyResolver) LookupIPAddr(context.Context, string) ([]net.IPAddr, error) { return a.ips, nil }
+
+type servedReq struct {
+	n          int
+	host, uri  string
+	auth       []string
+	viaCookies int
+}
+
+func chainArg(urls []string) string {
+	var parts []string
+	for _, s := range urls {
+		_, f := urlFields(s)
+		parts = append(parts, strings.Join(f, ";"))
+	}
+	return strings.Join(parts, "|")
+}
+
+func redirectChainStream(pool [][]byte) {
+	imgPolicy := primitives.VerifImageBoxHTTPClient(1).CheckRedirect
+	n := r.Pick(160, 2000)
+	for i := 0; i < n; i++ {
+		who := []string{"revocation", "imagebox"}[i%2]
+		cur := urlParts{scheme: "http", host: fmt.Sprintf("o%d.redir.test", i), port: []string{"", ":8080"}[r.Rand.Intn(2)], path: "/pki/a.crl", query: "x=1"}
+		if r.Rand.Intn(14) == 0 {
+			cur.user = "user:pw@" // credentials already in the first URL
+		}
+		length := 2 + r.Rand.Intn(4)
+		if r.Rand.Intn(10) == 0 {
+			length = 12 // beyond the revocation limit, every hop on the same origin
+		}
+		credsAt := 0
+		if r.Rand.Intn(5) < 3 {
+			credsAt = 1 + r.Rand.Intn(3) // userinfo appears at hop 1..3
+		}
+		urls := []string{cur.String()}
+		differs := []string{"initial"}
+		for k := 1; k < length; k++ {
+			what := []string{"path", "query", "fragment", "port", "host-case", "nothing", "scheme"}[r.Rand.Intn(7)]
+			if k == credsAt {
+				what = "userinfo"
+			}
+			switch what {
+			case "userinfo":
+				cur.user = []string{"user:pw@", "crl@", ":secret@"}[r.Rand.Intn(3)]
+			case "path":
+				cur.path = fmt.Sprintf("/pki/hop%d.crl", k)
+			case "query":
+				cur.query = fmt.Sprintf("x=%d", k+1)
+			case "fragment":
+				cur.frag = fmt.Sprintf("f%d", k)
+			case "port":
+				cur.port = []string{":8080", ":8081", ""}[k%3]
+			case "host-case":
+				if cur.host == strings.ToLower(cur.host) {
+					cur.host = strings.ToUpper(cur.host)
+				} else {
+					cur.host = strings.ToLower(cur.host)
+				}
+			case "scheme":
+				cur.scheme = "https" // the in-memory responder speaks plain HTTP: the chain ends here
+			}
+			urls = append(urls, cur.String())
+			differs = append(differs, what)
+			if what == "scheme" {
+				break
+			}
+		}
+		in := map[string]any{"fn": "redirect-chain", "client": who, "chain": urls, "differs": differs}
+		guard("redirect-chain", in, func() {
+			var mu sync.Mutex
+			var served []servedReq
+			ln := &chanListener{ch: make(chan net.Conn, 64), done: make(chan struct{})}
+			srv := &http.Server{Handler: http.HandlerFunc(func(w http.ResponseWriter, q *http.Request) {
+				mu.Lock()
+				k := len(served)
+				served = append(served, servedReq{n: k, host: q.Host, uri: q.RequestURI, auth: q.Header.Values("Authorization")})
+				mu.Unlock()
+				if k+1 < len(urls) {
+					w.Header().Set("Location", urls[k+1])
+					w.WriteHeader(http.StatusFound)
+					return
+				}
+				w.Write([]byte("final"))
+			})}
+			go srv.Serve(ln)
+			pipeDial := func(context.Context, string, string) (net.Conn, error) {
+				c, sc := net.Pipe()
+				ln.ch <- sc
+				return c, nil
+			}
+			type decision struct {
+				nvia   int
+				target string
+				ok     bool
+			}
+			var decisions []decision
+			var client *http.Client
+			var policy func(*http.Request, []*http.Request) error
+			var tr *http.Transport
+			firstOK := false
+			if who == "revocation" {
+				client = sign.VerifRevocationHTTPClient(3*time.Second, nil)
+				tr = client.Transport.(*http.Transport)
+				script := make([]bool, 64)
+				for j := range script {
+					script[j] = true
+				}
+				rec := &recDialer{script: script, accept: func(c net.Conn) { ln.ch <- c }}
+				tr.DialContext = sign.VerifRevocationDialContext(anyResolver{addrs([][]byte{randPublic()})}, rec.dial, sign.VerifAllowedRevocationHostSet(nil))
+				policy = client.CheckRedirect
+				firstOK = sign.VerifValidateRevocationURLString(urls[0]) == nil
+			} else {
+				tr = &http.Transport{DialContext: pipeDial}
+				client = &http.Client{Transport: tr, Timeout: 3 * time.Second}
+				policy = imgPolicy
+				_, remote, err := primitives.VerifImageBoxRemoteURL(urls[0])
+				firstOK = remote && err == nil
+			}
+			client.CheckRedirect = func(req *http.Request, via []*http.Request) error {
+				err := policy(req, via)
+				mu.Lock()
+				decisions = append(decisions, decision{len(via), req.URL.String(), err == nil})
+				mu.Unlock()
+				return err
+			}
+			if firstOK {
+				if resp, err := client.Get(urls[0]); err == nil {
+					resp.Body.Close()
+				}
+			}
+			tr.CloseIdleConnections()
+			close(ln.done)
+			srv.Close()
+
+			// K: every (len(via), target) decision made by the real client, and the number of URLs requested
+			requested := 0
+			if firstOK {
+				requested = 1
+			}
+			for _, d := range decisions {
+				_, f := urlFields(d.target)
+				if who == "revocation" {
+					r.Case("revredirect", append([]string{vh.Int(int64(d.nvia))}, f...), vh.Bool(d.ok))
+				} else {
+					r.Case("imgredirect", f, vh.Bool(d.ok))
+				}
+				if d.ok {
+					requested++
+				}
+			}
+			if who == "revocation" {
+				r.Case("revchain", []string{chainArg(urls)}, fmt.Sprint(requested))
+			} else {
+				r.Case("imgchain", []string{chainArg(urls)}, fmt.Sprint(requested))
+			}
+
+			// O: no request with credentials, every requested hop passes the policy of an initial URL
+			good := true
+			bad := func(u string) bool {
+				sc, creds := rawSchemeAndCreds(u)
+				return creds || (sc != "http" && sc != "https")
+			}
+			for _, q := range served {
+				if len(q.auth) > 0 {
+					good = false
+					r.OracleFail(who+"-redirect-with-credentials-followed", in, fmt.Sprintf("request #%d to %s%s carried Authorization: %s", q.n, q.host, q.uri, strings.Join(q.auth, ",")))
+				}
+				if q.n < len(urls) && bad(urls[q.n]) {
+					good = false
+					r.OracleFail(who+"-redirect-target-not-validated:"+differs[q.n], in, fmt.Sprintf("hop %d (%s) was requested although it does not pass the policy of an initial URL", q.n, urls[q.n]))
+				}
+			}
+			for _, d := range decisions {
+				if d.ok && bad(d.target) {
+					good = false
+					k := d.nvia
+					what := "?"
+					if k < len(differs) {
+						what = differs[k]
+					}
+					r.OracleFail(who+"-redirect-target-not-validated:"+what, in, fmt.Sprintf("CheckRedirect accepted %s after %d request(s)", d.target, d.nvia))
+				}
+				if d.ok && who == "revocation" && d.nvia >= 10 {
+					good = false
+					r.OracleFail("revocation-redirect-limit-exceeded", in, fmt.Sprint("accepted with len(via)=", d.nvia))
+				}
+			}
+			if good {
+				r.OracleOK()
+			}
+			for _, w := range differs[1:] {
+				r.Count("class:redirect-hop-differs-in-" + w)
+			}
+		})
+	}
+}
+
 func main() {
 	r = vh.Start("C30")
 	defer r.Finish()
@@ -1953,4 +2177,5 @@ func main() {
 	clientSequenceStream(pool)
 	revocationRebindStream(pool)
 	imageBoxRebindStream(pool)
+	redirectChainStream(pool)
 }
